@@ -188,8 +188,9 @@ CHECKS = {
              "checks everything the server emits (status line, header block, Sec-WebSocket-Accept, frames unmasked / minimally encoded / no "
              "reserved bits, pong echoes the ping, fragments in order) under I/O clamps of 1 and 3 bytes per system call and unclamped, "
              "with payload scales 1 and 1000.",
-        note="Trusted: TLC, harness/drv_ws.c, the clamp hook, ASan/UBSan, accounting allocator. Server role only: the dialer side (masking of "
-             "emitted frames, validation of the 101 response), the HTTP client API, chunked transfer decoding and file handlers are "
+        note="Trusted: TLC, harness/drv_ws.c, the clamp hook, ASan/UBSan, accounting allocator. Both roles of the ws transport (listener with "
+             "the driver as client; dialer with the driver as server: emitted request, 13 shapes of upgrade response, masking of emitted "
+             "frames, refusal of masked server frames).  The general HTTP client API, chunked transfer decoding and file handlers are "
              "outside the specification.",
         technique="TLA+ model checking (TLC) + simulation replay against a real ws:// listener under a short-I/O clamp",
         ref="DESIGN.md section 4, C16"),
